@@ -66,7 +66,11 @@ def run_comb(desc, build, ref, prop, alphabets=None, max_viol=3, use_clk=False):
         return {'constructor_rejected': 1, 'configs': 1, 'evaluations': 0, 'distinct_nontrivial': 0,
                 'vacuous_ok': True, 'distinct_outcomes': 0,
                 'samples': [{'config': desc, 'rejected': repr(e)[:160]}], 'violations': []}
-    sim = hw.getSimulator()
+    if desc.get('directsim'):
+        from py4hw.simulation import Simulator
+        sim = Simulator(hw)     # the simulator class constructed directly instead of hw.getSimulator()
+    else:
+        sim = hw.getSimulator()
     core.bystander()            # another system gets its simulator and runs in between: must not disturb this one
     wires = core.all_wires(hw)
     names = [n for n, _ in ins]
@@ -133,7 +137,11 @@ def replay_comb(v, build, ref):
             py4hw.HWSystem = orig
     else:
         hw, ins, outs = build(d)
-    sim = hw.getSimulator()
+    if d.get('directsim'):
+        from py4hw.simulation import Simulator
+        sim = Simulator(hw)
+    else:
+        sim = hw.getSimulator()
     for x in v['trace']:
         xd = dict(zip([n for n, _ in ins], x))
         for (n, w), val in zip(ins, x):
